@@ -156,11 +156,15 @@ fn gen(a: &Args) {
         (4294962296, 1, 5000), (4294967294, 1, 2), (65535, 65536, 300), (0, 65536, 5000), (1, 858993, 5000),
         (61440, 1, 4096), (61439, 1, 4098), (0, 2, 4097), (3, 7, 2), (0, 0, 1),
     ] {
+        o.case("codec");
         o.op(&format!("enc r:{}:{}:{}", s, st, c));
         o.op(&format!("encok r:{}:{}:{}", s, st, c));
     }
     let n = if thorough { 6000 } else { 500 };
     for i in 0..n {
+        if i % 40 == 0 {
+            o.case("codec"); // independent cases run in parallel
+        }
         let k = match r.below(6) {
             0 => r.range(2, 5),
             1 => r.range(2, 64),
@@ -225,7 +229,7 @@ fn gen(a: &Args) {
     }
 
     // --- the real merge operator inside RocksDB, operands grouped by flush / compaction
-    let n = if thorough { 600 } else { 40 };
+    let n = if thorough { 600 } else { 30 };
     for _ in 0..n {
         o.case("codec");
         for _ in 0..3 {
@@ -254,7 +258,7 @@ fn gen(a: &Args) {
     }
 
     // --- builds under schedules
-    let n = if thorough { 400 } else { 26 };
+    let n = if thorough { 400 } else { 28 };
     for ci in 0..n {
         let c = rand_coll(&mut r, 8);
         o.case(&format!("coll {}", show_coll(&c)));
